@@ -63,6 +63,10 @@ func c16Fixed() []c16Case {
 		{"component-two-distinct", map[string]string{"p.vuego": `<template include="c.vuego"></template><template include="c.vuego"></template>`, "c.vuego": `<i v-once>M1</i><b v-once>M2</b>`}, "p.vuego", map[string]int{"M1": 1, "M2": 1}},
 		{"component-in-loop", map[string]string{"p.vuego": `<div v-for="x in items"><template include="c.vuego"></template></div>`, "c.vuego": `<i v-once>M1</i><b>M2</b>`}, "p.vuego", map[string]int{"M1": 1, "M2": 3}},
 		{"layout-and-page", map[string]string{"p.vuego": "---\nlayout: main\n---\n<i v-once>M1</i><i v-once>M2</i>", "layouts/main.vuego": `<b v-once>M3</b><b v-once>M4</b><div v-html="content"></div>`}, "p.vuego", map[string]int{"M1": 1, "M2": 1, "M3": 1, "M4": 1}},
+		// v-once combined with v-pre (a script or style whose text must reach the browser untouched): still once per render
+		{"once-pre-in-loop", map[string]string{"p.vuego": `<ul><li v-for="x in items"><i v-once v-pre>M1 {{ x }}</i><b>M2</b><u v-once>M3</u></li></ul>`}, "p.vuego", map[string]int{"M1": 1, "M2": 3, "M3": 1}},
+		{"once-pre-component-thrice", map[string]string{"p.vuego": `<template include="c.vuego"></template><template include="c.vuego"></template><template include="c.vuego"></template>`, "c.vuego": `<script v-once v-pre>M1 = "{{ name }}"</script><b>M2</b><style v-pre v-once>M3</style>`}, "p.vuego", map[string]int{"M1": 1, "M2": 3, "M3": 1}},
+		{"once-pre-loop-root", map[string]string{"p.vuego": `<div v-for="x in items"><p v-pre v-once>M1</p></div><p v-pre>M2 {{ y }}</p>`}, "p.vuego", map[string]int{"M1": 1, "M2": 1}},
 		// the same component in more than one layer of a layout chain: the rule applies to the page and to each layout separately
 		{"component-in-page-and-layout", map[string]string{"p.vuego": "---\nlayout: main\n---\n<template include=\"c.vuego\"></template><template include=\"c.vuego\"></template>", "layouts/main.vuego": `<aside><template include="c.vuego"></template><template include="c.vuego"></template></aside><div v-html="content"></div>`, "c.vuego": `<i v-once>M1</i><b>M2</b>`}, "p.vuego", map[string]int{"M1": 2, "M2": 4}},
 		{"component-in-two-layouts", map[string]string{"p.vuego": "---\nlayout: inner\n---\n<u>M3</u>", "layouts/inner.vuego": "---\nlayout: main\n---\n<template include=\"c.vuego\"></template><div v-html=\"content\"></div>", "layouts/main.vuego": `<template include="c.vuego"></template><template include="c.vuego"></template><div v-html="content"></div>`, "c.vuego": `<i v-once>M1</i><b>M2</b>`}, "p.vuego", map[string]int{"M1": 2, "M2": 3, "M3": 1}},
